@@ -32,10 +32,11 @@ def regression(per_obs=True, transform=True):
 def weak_hierarchy():
     import liesel.model as lsl
     tfd, tfb = _tf()
-    m0 = lsl.param(0.1, lsl.Dist(tfd.Normal, loc=lsl.Var(0.0, name="m0_loc"), scale=lsl.Var(3.0, name="m0_scale")), name="m0")
+    # m0: positional-only parameters; mu: mixed positional / keyword parameters (both ways of passing distribution inputs are in the family)
+    m0 = lsl.param(0.1, lsl.Dist(tfd.Normal, lsl.Var(0.0, name="m0_loc"), lsl.Var(3.0, name="m0_scale")), name="m0")
     ls = lsl.param(0.2, lsl.Dist(tfd.Normal, loc=0.0, scale=1.0), name="ls")
     sd = lsl.Var(lsl.Calc(jnp.exp, ls), name="sd")            # weak intermediate variable
-    mu = lsl.param(jnp.zeros(2), lsl.Dist(tfd.Normal, loc=m0, scale=sd), name="mu")
+    mu = lsl.param(jnp.zeros(2), lsl.Dist(tfd.Normal, m0, scale=sd), name="mu")
     y = lsl.obs(jnp.array([0.4, -0.7]), lsl.Dist(tfd.Normal, loc=mu, scale=lsl.Var(0.8, name="y_scale")), name="y")
     return lsl.GraphBuilder().add(y).build_model()
 
